@@ -1,6 +1,7 @@
 ---- MODULE Units_Trace ----
 (* pair: obs = [compat, equiv, fac (exponents of 2,3,5,pi or <<>>), temp (values for 0,1,100 as rationals), *)
-(*              link (outcome class over a link), linkfac, prep (outcome of prepare), relabel]            *)
+(*              link (outcome class over a link), linkfac, prep (outcome of prepare), relabel,            *)
+(*              linksame (the value 1 arrives as over the plain link also over a static link read twice and as integer payload)] *)
 (* seq:  obs = [ans]: sequence of <<compat, equiv>> answers                                               *)
 EXTENDS Units, Json, IOUtils
 Traces == ndJsonDeserialize(IOEnv.TRACE_FILE)
@@ -12,6 +13,7 @@ PairVerdict(c, o) ==
   ELSE IF ~Compatible(a, b) THEN
        (IF o.link # "err:FinamMetaDataError" \/ o.prep # "err:FinamDataError" THEN "units-refused@1" ELSE "ok")
   ELSE IF o.link # "ok" \/ o.prep # "ok" THEN "units-accepted@1"
+  ELSE IF \E k \in 1..Len(o.linksame) : ~o.linksame[k] THEN "units-link-variant@1"   \* static link read twice, integer payload
   ELSE IF HasOffset(a, b) THEN
        (IF <<o.temp[1], o.temp[2], o.temp[3]>> # <<TempMap(a, b)[0], TempMap(a, b)[1], TempMap(a, b)[100]>> THEN "units-convert@1"
         ELSE "ok")
